@@ -97,6 +97,9 @@ func readMessage(buf *bytes.Reader) (*Message, error) {
 	if err := read(buf, &m.DataType, RSCP_DATA_DATATYPE_SIZE); err != nil {
 		return nil, err
 	}
+	if !m.DataType.IsADataType() {
+		return nil, fmt.Errorf("data type 0x%02x: %w", uint8(m.DataType), ErrRscpUnknownDataType)
+	}
 
 	var l uint16
 	if err := read(buf, &l, RSCP_DATA_LENGTH_SIZE); err != nil {
